@@ -392,6 +392,57 @@ def failing_mv_scenario(ctx, S, w):
             shutil.rmtree(T, ignore_errors=True)
 
 
+def big_directory_scenario(ctx, S, w):
+    """a directory of many long-named files (its entries span several clusters) copied in, moved across partitions, copied
+    out and removed with rm -r: exactly the named tree moves, nothing is left behind, every image stays consistent"""
+    import tempfile, shutil, hashlib, fatcheck
+    T = tempfile.mkdtemp(prefix='c19b-')
+    try:
+        host = os.path.join(T, 'host')
+        os.makedirs(os.path.join(host, 'tree', 'inner'))
+        image = os.path.join(T, 'disk.img')
+        layout = S.build_image(image, [[ctx.rng.choice(['fat16', 'fat12']), 400, 2], [ctx.rng.choice(['fat32', 'fat16']), 400, 1]])
+        want = {}
+        for k in range(44):
+            rel = ('inner/' if k % 5 == 4 else '') + f'a file with a rather long name number {k:02d}.dat'
+            data = bytes((k * 7 + j) % 251 for j in range(k * 37 % 1500))
+            with open(os.path.join(host, 'tree', rel), 'wb') as f:
+                f.write(data)
+            want[rel] = hashlib.sha1(data).hexdigest()
+        H, I1, I2 = host, image + ':1', image + ':2'
+        def sh(*argv):
+            return w.call({'op': 'sh', 'argv': list(argv)})
+        def listing(part, top):
+            res = w.call({'op': 'walk', 'image': image, 'parts': [part]})[str(part)]
+            if 'error' in res:
+                return res['error']
+            return {k[len(top) + 1:]: v[2] for k, v in res['tree'].items() if k.startswith(top + '/') and v[0] == 'f'}
+        def consistent():
+            with open(image, 'rb') as f:
+                for n, (off, ln) in enumerate(layout, 1):
+                    f.seek(off)
+                    p = fatcheck.fat_consistency(f.read(ln), force=True)
+                    if p:
+                        return f'partition {n}: {p[:3]}'
+            return None
+        steps = [(['cp', '-r', H + '/tree', I1 + '/tree'], lambda: listing(1, 'tree') == want, 'cp -r host -> partition 1'),
+                 (['mv', I1 + '/tree', I2 + '/moved'], lambda: listing(2, 'moved') == want and listing(1, 'tree') == {}, 'mv partition 1 -> partition 2'),
+                 (['cp', '-r', I2 + '/moved', H + '/back'], lambda: {os.path.relpath(os.path.join(d, f), os.path.join(H, 'back')): hashlib.sha1(open(os.path.join(d, f), 'rb').read()).hexdigest()
+                                                              for d, _, fs_ in os.walk(os.path.join(H, 'back')) for f in fs_} == want, 'cp -r partition 2 -> host'),
+                 (['rm', '-r', I2 + '/moved'], lambda: listing(2, 'moved') == {} and not any(k == 'moved' for k in w.call({'op': 'walk', 'image': image, 'parts': [2]})['2'].get('tree', {})), 'rm -r on partition 2')]
+        for argv, ok, label in steps:
+            r = sh(*argv)
+            ctx.case(('big-directory', label), True, 'sh-big-directory')
+            bad = consistent()
+            if r['rc'] != 0 or bad or not ok():
+                ctx.violation('sh/big-directory', f'a directory of 44 long-named files (entries over several clusters): {label} exited {r["rc"]} '
+                              f'({r["err"].strip()[-120:]!r}); images consistent: {bad or "yes"}; the tree is where it should be: {bool(r["rc"] == 0 and not bad and ok())}',
+                              dict(step=label))
+                return
+    finally:
+        shutil.rmtree(T, ignore_errors=True)
+
+
 def check_shell(ctx):
     from props import c19_shell as S
     rng = ctx.rng
@@ -403,6 +454,9 @@ def check_shell(ctx):
         if ctx.violations:
             return
         failing_mv_scenario(ctx, S, w)
+        if ctx.violations:
+            return
+        big_directory_scenario(ctx, S, w)
         if ctx.violations:
             return
         seqs = []
